@@ -49,6 +49,7 @@ def check(ck: Checker) -> None:
     _update(ck)
     _md5(ck)
     _savepair(ck)
+    _failed_not_recorded(ck)
     from .build_common import check_zip_alignment_all
 
     nz = check_zip_alignment_all(ck, "C13.savepair", prog_func(ck, "index.checkout", "_create_files"),
@@ -418,6 +419,14 @@ def _update(ck: Checker) -> None:
     fn = prog.func("index.update", "update")
     g = ck.cfg(fn)
     sinks = [n for n in g.nodes.values() if n.kind == "stmt" and isinstance(n.ast, ast.Assign) and norm(n.ast.targets[0]).endswith(".hash_info")]
+    pre = [c for c, cals in ck.res.calls_in(fn) if any(x.name == "diff" and x.module.name.endswith("index.diff") for x in cals)]
+    if not pre:
+        # the carry-over no longer rests on the entry-by-entry metadata diff at all
+        anyset = [x for x in ast.walk(fn.node) if isinstance(x, ast.Assign) and any(isinstance(t, ast.Attribute) and t.attr == "hash_info" for t in x.targets)]
+        ck.fail("C13.update", fn, anyset[0] if anyset else fn.node,
+                "index.update carries hashes over without the entry-by-entry metadata diff (diff(old, new, meta_only=True)): whether a file's size / mtime / inode changed is no longer what decides the carry-over",
+                construct="update / no metadata diff")
+        return
     ck.floor("C13.update", len(sinks), 1, "hash carry-over assignments in index.update")
 
     def unchanged(t, lab):
@@ -529,3 +538,51 @@ def _savepair(ck: Checker) -> None:
         h = g.nodes[n.loops[-1]] if n.loops else None
         lv = norm(h.ast.target.elts[0]) if h is not None and isinstance(h.ast.target, ast.Tuple) else None
         ck.require(lv is not None and norm(c.args[0].elts[0]) == lv, "C13.savepair", sm, n, "row is stored under the path it was computed for", f"row key {norm(c.args[0].elts[0])} is not the item's path")
+
+
+
+def _failed_not_recorded(ck: Checker) -> None:
+    """index.checkout._create_files: a hash-state row is written only for a destination the bulk copy did
+    not report as failed - otherwise a file that was already sitting there gets the target's hash."""
+    from ..an import cut
+    from ..cfg import calls_at
+
+    prog = ck.prog
+    fn = prog.func("index.checkout", "_create_files")
+    g = ck.cfg(fn)
+    saves = [(n, c) for n in g.nodes.values() for c in calls_at(n) if is_method_call(c, "save_many") and "state" in norm(c.func.value)]
+    ck.floor("C13.savepair", len(saves), 1, "state.save_many in index.checkout._create_files")
+    # sets filled by an error callback that is handed to the bulk copy
+    failed_sets = set()
+    for c in [x for x in walk_own(fn.node) if isinstance(x, ast.Call)]:
+        oe = next((k.value for k in c.keywords if k.arg == "on_error"), None)
+        if oe is None or not isinstance(oe, ast.Name):
+            continue
+        for child in fn.children.values():
+            if child.name != oe.id:
+                continue
+            for x in walk_own(child.node):
+                if isinstance(x, ast.Call) and is_method_call(x, "add", "append") and x.args and isinstance(x.args[0], ast.Name) and child.has_param(x.args[0].id):
+                    recv = x.func.value
+                    nm = norm(recv)
+                    # the set may be bound through a default argument (_failed=failed_paths)
+                    d = child.param_default(nm) if child.has_param(nm) else None
+                    failed_sets.add(norm(d) if d is not None else nm)
+    for n, c in saves:
+        rows = norm(c.args[0]) if c.args else None
+        apps = [x for x in g.nodes.values() for cc in calls_at(x) if is_method_call(cc, "append") and norm(cc.func.value) == rows]
+        ck.floor("C13.savepair", len(apps), 1, "row appends for the hash-state update in _create_files")
+        for x in apps:
+            def not_failed(t, lab):
+                e = t.ast
+                if t.kind != "test" or not (isinstance(e, ast.Compare) and len(e.ops) == 1 and isinstance(e.ops[0], (ast.In, ast.NotIn))):
+                    return False
+                if norm(e.comparators[0]) not in failed_sets:
+                    return False
+                return (isinstance(e.ops[0], ast.In) and lab == "F") or (isinstance(e.ops[0], ast.NotIn) and lab == "T")
+
+            w = cut(g, [x.id], not_failed)
+            ck.require(bool(failed_sets) and w is None, "C13.savepair", fn, x,
+                       "a hash-state row is recorded only for destinations the copy did not report as failed",
+                       "a hash-state row (destination, target hash, stat) is recorded although the copy of that entry may have failed and been handed to the error callback: a file that already existed at the destination is then vouched for with the target's hash",
+                       witness=g.fmt_path(w) if w else None, construct=f"{x.text()[:50]} / not failed")
